@@ -373,7 +373,16 @@ func VerifC07Contract() {
 		verifapi.Assert(storedCredit() == credit, "c07.contract.failed-attempt-leaves-credit")
 		// the trouble passes; the wallet tries again
 		ch.timelocked[key] = false
-		cp.balanceCache.Reset(0) // (a cached deposit would be equally good: nothing was cached by a failed read)
+		if verifapi.Bool("cache-expired-before-retry") {
+			cp.balanceCache.Reset(0)
+		}
+		// the balance as the service reports it is the one from before the attempt, whether the deposit is
+		// looked up again or still remembered from the failed attempt
+		if b, berr := cp.GetAccountBalance(wal); berr == nil {
+			verifapi.Assert(b.Deposit.Int64() == deposit && b.Credit.Int64() == credit, "c07.contract.failed-attempt-leaves-reported-balance")
+		} else {
+			verifapi.Unreachable("c07.contract.balance-read-after-trouble")
+		}
 		err2 := w.withdraw(wal, true)
 		verifapi.Assert(err2 == nil, "c07.contract.retry-succeeds")
 	}
